@@ -228,9 +228,10 @@ pub fn run(tier: &str) -> i32 {
         let id_list: Vec<u64> = ids.iter().copied().collect();
         for z in (0..=40u8).chain([63, 64, 255]) {
             for (x, y) in [(0u64, 0u64), (1, 0), (3, 5), (u64::MAX, 0), (1 << 31, 1 << 31)] {
-                let _ = lib_tile_id(z, x, y);
                 nseq += 1;
                 for id in id_list.iter() {
+                    // the forward call directly precedes EVERY inverse check (an intervening conversion could repair state)
+                    let _ = lib_tile_id(z, x, y);
                     if let Some((k, d)) = check_id(*id) {
                         rep.violation(format!("{k}/after-forward-call"), format!("after tile_id({z},{x},{y}) on the same thread: {d}"), json!({"kind":"sequence","z":z,"x":x.to_string(),"y":y.to_string(),"id":id.to_string()}));
                     }
